@@ -110,3 +110,50 @@ for _p in ("jax.numpy.where", "numpy.where"):
             return old.fn(E, c, a, b, **kw)
         return where
     LIB.funcs[_p] = Builtin(_p, _mk(LIB.funcs[_p]))
+
+
+# ------------------------------------------- arrays from symbolic comprehensions
+def symcomp_tensor(E, sc):
+    """[elt for t in range(lo, hi)] (core.SymComp) as an array: axis 0 has length
+    max(hi - lo, 0), row k is elt[t := lo + k] (python list semantics + jnp.array /
+    jnp.vstack of a list of equally shaped arrays stacks them along a new leading axis)."""
+    v = tt(sc.value)
+    vt = T.as_tensor(v)
+    n = C.binop("-", sc.hi, sc.lo) if not (isinstance(sc.lo, int) and sc.lo == 0) else sc.hi
+    if isinstance(n, int):
+        n = max(n, 0)
+    elif E.may(C.compare("<", n, 0)):
+        n = C.smax(n, 0)
+    iv = sc.ivar
+
+    def fn(k, *rest):
+        e = vt.at(*rest)
+        if isinstance(e, Sym):
+            return Sym(z3.substitute(e.z, (iv, C.to_z3(C.binop("+", sc.lo, k)))), e.gdeps)
+        return e
+
+    return Tensor((T.norm_dim(n),) + tuple(vt.shape), fn, vt.sort, vt.gdeps)
+
+
+def _wrap_symcomp(path, vstack=False):
+    old = LIB.funcs[path]
+
+    def f(E, a, *rest, **kw):
+        if isinstance(a, C.SymComp):
+            t = symcomp_tensor(E, a)
+            if vstack and t.ndim >= 3:
+                raise Unsupported("vstack of a symbolic number of >= 2-D blocks")
+            if vstack and t.ndim == 1:
+                t = T.expand_dims(t, 1)  # vstack promotes scalars / 1-D rows to 2-D first
+            return t
+        return old.fn(E, a, *rest, **kw)
+
+    LIB.funcs[path] = Builtin(path, f)
+
+
+for _p in ("jax.numpy.array", "jax.numpy.asarray", "numpy.array", "numpy.asarray", "jax.numpy.stack", "numpy.stack"):
+    if _p in LIB.funcs:
+        _wrap_symcomp(_p)
+for _p in ("jax.numpy.vstack", "numpy.vstack"):
+    if _p in LIB.funcs:
+        _wrap_symcomp(_p, vstack=True)
